@@ -43,7 +43,7 @@ var (
 	named    []*types.Named
 	rootType = map[string]bool{"RoundRobin": true, "Rebalancer": true, "CircuitBreaker": true, "TokenLimiter": true,
 		"ConnLimiter": true, "Tracer": true, "Buffer": true, "Stream": true, "StateListener": true, "StickySession": true, "RTMetrics": true}
-	configTime  = map[string]bool{"Wrap": true, "Fallback": true, "SetCookieValue": true, "String": true}
+	configTime  = map[string]bool{"Wrap": true, "Fallback": true, "SetCookieValue": true}
 	perRequest  = map[string]bool{"ProxyWriter": true, "BufferWriter": true, "bufferWriter": true, "context": true, "nopWriteCloser": true}
 	followIface = map[string]bool{"Meter": true, "BalancerHandler": true, "SideEffect": true, "CookieValue": true, "SourceExtractor": true, "RateExtractor": true}
 	memo        = map[string]bool{}
